@@ -16,7 +16,7 @@ typedef struct { uint32_t h; int event; } WSeq;
 typedef struct { uint8_t *p; uint32_t n; } WCtx;
 typedef struct {
     char ownerAuth[8], endorseAuth[8], lockoutAuth[8], platformAuth[8];
-    WNv nv[W_MAXNV]; int nnv;
+    WNv nv[W_MAXNV]; int nnv; uint32_t nv_gone;   /* nv_gone: pool slots of indices that were deleted in this history */
     WObj obj[W_MAXOBJ]; int nobj;
     uint32_t pers[6]; int npers;
     WSess sess[W_MAXSESS]; int nsess;
@@ -249,7 +249,7 @@ static void op_nv_use(World *w, Buf *b) {
     else if (k == 7) { cmd_begin(b, ST_SESSIONS, chance(50) ? CC_NV_WriteLock : CC_NV_ReadLock); b_u32(b, ah); b_u32(b, n->idx); auth_pw_s(b, pw); w_run(w, b); }
     else if (k == 8) { cmd_begin(b, ST_NO_SESSIONS, CC_NV_ReadPublic); b_u32(b, n->idx); w_run(w, b); }
     else { cmd_begin(b, ST_SESSIONS, CC_NV_UndefineSpace); b_u32(b, RH_OWNER); b_u32(b, n->idx); auth_pw_s(b, w->ownerAuth);
-        Rsp r = w_run(w, b); if (r.rc == 0) w->nv[i] = w->nv[--w->nnv]; }
+        Rsp r = w_run(w, b); if (r.rc == 0) { w->nv_gone |= 1u << (n->idx & 31); w->nv[i] = w->nv[--w->nnv]; } }
 }
 static void op_pcr(World *w, Buf *b) {
     int k = rnd(10);
@@ -324,7 +324,7 @@ static void op_admin(World *w, Buf *b) {
         uint32_t ah = chance(50) ? RH_LOCKOUT : RH_PLATFORM;
         cmd_begin(b, ST_SESSIONS, CC_Clear); b_u32(b, ah); auth_pw_s(b, w_hauth(w, ah));
         Rsp r = w_run(w, b);
-        if (r.rc == 0) { w->ownerAuth[0] = w->endorseAuth[0] = w->lockoutAuth[0] = 0; w->nnv = 0; w->dis[0] = w->dis[1] = 0; w_drop_objects(w, RH_OWNER); w_drop_objects(w, RH_ENDORSEMENT); w_drop_pers(w, 0); }
+        if (r.rc == 0) { for (int q = 0; q < w->nnv; q++) w->nv_gone |= 1u << (w->nv[q].idx & 31); w->ownerAuth[0] = w->endorseAuth[0] = w->lockoutAuth[0] = 0; w->nnv = 0; w->dis[0] = w->dis[1] = 0; w_drop_objects(w, RH_OWNER); w_drop_objects(w, RH_ENDORSEMENT); w_drop_pers(w, 0); }
     } else if (k == 1) { /* new endorsement / platform primary seed */
         int eps = chance(50);
         cmd_begin(b, ST_SESSIONS, eps ? CC_ChangeEPS : CC_ChangePPS); b_u32(b, RH_PLATFORM); auth_pw_s(b, w->platformAuth);
@@ -391,9 +391,11 @@ static void op_admin(World *w, Buf *b) {
 /* hierarchies disabled by HierarchyControl come back at any Reset/Restart: a comparison across such a restart first enables
    them again (callers work on a snapshot that is restored afterwards) */
 static void w_enable_hierarchies(World *w, Buf *b) {
+    int pp = g_pp; g_pp = 1;   /* PP_Commands may have put HierarchyControl on the list of commands that need physical presence */
     for (int k = 0; k < 2; k++) if (w->dis[k]) {
         cmd_begin(b, ST_SESSIONS, CC_HierarchyControl); b_u32(b, RH_PLATFORM); auth_pw_s(b, w->platformAuth); b_u32(b, k == 0 ? RH_OWNER : RH_ENDORSEMENT); b_u8(b, 1);
         if (run(b).rc == 0) w->dis[k] = 0; }
+    g_pp = pp;
 }
 
 /* one random state-building op */
